@@ -26,7 +26,11 @@ TECHNIQUE = ("Lean 4 theorems about an executable model of the import transforms
 LEVEL_TEXT = ("Proof, for every cell text, category table, chunking and validation mode, that the modelled kernels compute the "
               "specified conversion without any out-of-range subscript: categorical_transform / leaky_categorical_transform over "
               "get_byte_map's packed table return the value of the unique key equal to the whole cell (free text and its offsets "
-              "accumulate correctly across any chunking), numeric_bool_transform accepts exactly the documented spellings "
+              "accumulate correctly across any chunking); a categorical column without free text holds, row by row, the value "
+              "listed for the key the cell equals, or the import raises ValueError because some cell equals no key - which of "
+              "the two depends on the cells only, not on the chunking (categorical_property, at full strength since fix NC06d; "
+              "categorical_transform's first_unmatched is the FIRST such row of the chunk: categorical_transform_checked, "
+              "first_unmatched_is_first); numeric_bool_transform accepts exactly the documented spellings "
               "(stated over the literal table regenerated from the source), the validation-mode table of transform_int/float, "
               "fixed_string_transform keeps the first N bytes, parse_timestamp_bytes yields the UTC POSIX time of every accepted "
               "layout including written offsets, and all companion columns stay as long as the main column. Composition with "
@@ -37,21 +41,25 @@ LEVEL_TEXT = ("Proof, for every cell text, category table, chunking and validati
               "companion field (read_csv_typed_eq_spec, typed_companions_aligned). The raising half of the property at the "
               "public entry point (read_csv_typed_raises): whenever some selected cell is rejected by its importer's validation "
               "mode (empty / unparseable numeric text in strict, unparseable in allow_empty, integer outside the dtype in every "
-              "mode, impossible date), read_csv_with_schema_dict raises, for every chunk_row_size of C05's regime, every window "
+              "mode, impossible date, text that is no category in a categorical column without free text), read_csv_with_schema_dict raises, for every chunk_row_size of C05's regime, every window "
               "boundary and every regrowth (typed_raise_chunk_size_unobservable: two chunk sizes both succeed with equal "
               "output or both raise); the error is what the importer raises (rejErr) on the first rejected cell - index_map "
               "order, then row order - of the first kernel block that holds one, and its class is Exception for bool, "
-              "OverflowError for an out-of-dtype integer, ValueError for empty / unparseable numeric text and for dates "
-              "(typed_reject_error_class).")
+              "OverflowError for an out-of-dtype integer, ValueError for empty / unparseable numeric text, for dates and for text "
+              "that is no category (typed_reject_error_class).")
 LEVEL_NOTE = ("Parameters, not theorems: the text-to-number parsers (Python int()/float(), numpy astype; validation_mode_table holds "
               "for every parser that rejects blank text) and datetime/timezone (CPython's _ymd2ord is mirrored and proved equal to "
               "plain day counting; int() on bytes is modelled executably and compared exhaustively on short texts). The timestamp "
               "theorem covers texts rendered with fixed-width decimals in the seven layouts; what parse_timestamp_bytes does with "
               "other texts (unchecked separators) is only compared, not specified. The model is validated against the real importers "
               "by the differential run, not verified against the Python text. Theorems are about the code with fixes D27 (C05), D28, "
-              "D29, NC06a, NC06b, NC06c, NC06e, NC06f applied. NC06d (text that is no category, in a categorical column without "
-              "free text, is stored as 0) is recorded as found: categorical_exact_match states the stored 0 outright, the "
-              "property-level statement is categorical_property_partial (every cell is a key), witness in Witness/C06.lean. "
+              "D29, NC06a, NC06b, NC06c, NC06d, NC06e, NC06f applied. NC06d (text that is no category, in a categorical column "
+              "without free text, was stored as 0) is repaired by fixes/NC06d_strict_categorical_rejects_unknown_text.patch: "
+              "the model carries both variants - categoricalTransformChecked / categoricalImportPart / "
+              "categoricalImportChecked mirror the repaired code (categorical_property), categoricalTransform / "
+              "categoricalImport the code as found (categorical_exact_match states the stored 0 outright, "
+              "categorical_property_partial, witness in Witness/C06.lean); the driver reports both, and the as-found answer is "
+              "accepted by the correspondence only while NC06d is listed open (then the oracle reports it under the finding). "
               "The composed theorem read_csv_typed_eq_spec requires every selected cell to be acceptable to its importer; for "
               "rejected cells (strict / allow_empty, out of range, impossible dates) read_csv_typed_raises lifts the "
               "importer-level statement (read_csv_typed_raises_partial, kept) through the driver loop: the invariant DI is "
@@ -63,10 +71,13 @@ LEVEL_NOTE = ("Parameters, not theorems: the text-to-number parsers (Python int(
               "code, and the reported column / cell text against the first rejected cell of the first block of the model's "
               "block trace, on a stratified family (every importer kind x validation mode x class of cell x every row "
               "position: first row of the file, last row of a kernel block, first row after a regrowth).")
-RULE = ("corpus (witnesses of D28, D29, NC06a-f) first; exhaustive: every byte string up to length 3 (quick) / 4 (thorough) over the "
+RULE = ("corpus (witnesses of D28, D29, NC06a-f; NC06d at importer level and at the public entry point) first; exhaustive: every byte string up to length 3 (quick) / 4 (thorough) over the "
         "bool literal alphabet {t,r,u,e,f,a,l,s,y,n,o,0,1,blank,x} plus all case variants of the accepted spellings, in the three "
         "modes; every subset (size <= 3) of the key pool {'', a, ab, b, ba, abc} against all pool members, strict prefixes/suffixes "
-        "and a stranger, for both categorical importers and four chunkings (whole, singletons, with empty chunks, uneven); fixed "
+        "and a stranger, for both categorical importers and four chunkings (whole, singletons, with empty chunks, uneven); a "
+        "categorical column without free text with ONE cell that is no category (stranger, empty, proper prefix / suffix of a key, "
+        "key plus a byte, other case, trailing / leading blank) in every row 0..5 x five chunkings (first row, last row of a chunk, "
+        "first row of a later chunk, after an empty chunk; measured: cat-unmatched:*), two such cells, '' listed as a key; fixed "
         "strings of length 0..4 against N = 1..3; every integer text of a 45-word grammar (blanks, signs, underscores, exponents, "
         "out of range, empty, garbage) x 3 modes x 8 integer dtypes; every timestamp layout x boundary dates x offsets; then seeded "
         "random columns (up to 40 rows, random chunkings with empty chunks, tables up to 600 key bytes, UTF-8 keys) and CSV-level "
@@ -77,7 +88,8 @@ RULE = ("corpus (witnesses of D28, D29, NC06a-f) first; exhaustive: every byte s
         "stratified and seed independent (c05.typed_reject_cases): a typed column beside a one-byte fixed-string column whose "
         "long cell in row 3 forces a value-buffer regrowth, the cell of class {empty, unparseable, out of dtype range, "
         "impossible date} in every row 0..5 in turn x {bool, int8, uint16, float64} x {strict, allow_empty, relaxed} and "
-        "datetime / date x chunk_row_size {smallest, +1, (+3), one window}, plus two-column files with two rejected cells "
+        "datetime / date, and the cell of class {unknown, empty, prefix, extension, case, trailing blank} of a categorical "
+        "column without free text, x chunk_row_size {smallest, +1, (+3), one window}, plus two-column files with two rejected cells "
         "of different exception classes in both column orders; measured strata in the distribution (reject-stratum:*). Non-trivial = at least two chunks or an unmatched/invalid/truncated cell; distinct "
         "= distinct case dict.")
 ASSUMPTIONS = ["Python int()/float(), numpy astype(str->number) and datetime/timezone arithmetic are parameters of the theorems "
